@@ -41,6 +41,7 @@ def gen(c):
         slow = sc in ('isap128', 'isap80pq')
         shapes = [(0, 0), (0, 1), (1, rate - 1), (rate, rate), (rate + 1, 2 * rate + 1), (3, 3 * rate + 5), (2 * rate, 5)]
         if th: shapes += [(rng.randrange(0, 40), rng.randrange(0, 100)) for _ in range(6)]
+        if not slow: shapes += [(5 * rate + 3, 5 * rate + 7)]       # beyond four rate blocks (unrolled loops) in both AD and payload
         if slow and not th: shapes = shapes[:3]
         for adl, ml in shapes:
             k = pattern(rng, klen); n = pattern(rng, 16); ad = pattern(rng, adl); m = pattern(rng, ml, 'rand' if ml else None)
@@ -100,6 +101,13 @@ def run(c):
     p = gen(c)
     sessions(c, p, 200 if c.tier == 'thorough' else 25)
     loaded_keys(c, p)
+    # C++ objects: a forged packet is refused and the genuine packet for the same nonce is then still accepted (from C14's plan)
+    import c14
+    class Sub:
+        def __init__(s, c): s.rng = c.rng; s.tier = 'quick'; s.cov = {}
+        def distinct(s, items): pass
+    q = c14.gen(Sub(c))
+    p.cases += [cs for cs in q.cases if any(l.startswith('cpp.dec') for l in cs[0])]
     c.assumptions += ['a modified (key, nonce, AD, ciphertext||tag) verifies with probability 2^-128: every forged input is required to be rejected',
                       'forged decryptions are judged by TLC from the recorded result (negative, plaintext all zero for one-shot forms, canaries intact) after TLC has recomputed the BASE ciphertext from the specification; decryptions of valid and of arbitrary inputs are recomputed in full',
                       'ISAP is not part of the symbolic forgery model (bit-wise re-keying terms are too deep for TLC); it is covered by trace validation only']
